@@ -205,11 +205,13 @@ fn check_source_rule(view: &NodeView, ip: &Ip, pkt: &Packet) -> Result<(), Viola
         ));
     }
     if src.is_unspecified() {
-        // legal: DHCP client messages before a lease; MLD reports / DAD-style NS without address
+        // legal: DHCP client messages before a lease; MLD reports / DAD-style NS without address.
+        // (IGMP: RFC 3376 4.2.13 tolerates reports from 0.0.0.0, but no protocol requires them - the statement
+        // admits the unspecified source only "where the protocol requires it", and the stack sends no IGMP
+        // message while it has no IPv4 address)
         let ok = match &pkt.l4 {
             Some(L4::Udp(u)) => view.dhcp && u.sport == 68 || u.dport == 67,
             Some(L4::Icmp6(i)) => i.typ == 143 || i.typ == 135 || i.typ == 133,
-            Some(L4::Igmp(_)) => true,
             _ => false,
         };
         if !ok {
